@@ -402,6 +402,20 @@ func tweak(t *rapid.T, s map[string]any) {
 }
 
 func gen(t *rapid.T) Case {
+	if rapid.IntRange(0, 11).Draw(t, "defaultsfamily") == 0 {
+		// bodies that satisfy every member of a composition as sent, where one member writes a default the
+		// other has a bound for: whatever is said about such a body, it is said without the body's strings
+		first := rapid.SampledFrom([]string{`{"type":"object","maxProperties":1}`, `{"type":"object","additionalProperties":false,"properties":{"name":{"type":"string"}}}`,
+			`{"type":"object","not":{"required":["flavour"]}}`}).Draw(t, "boundmember")
+		second := `{"type":"object","properties":{"name":{"type":"string"},"flavour":{"type":"string","default":"plain"}}}`
+		members := []string{first, second}
+		if rapid.Bool().Draw(t, "defaultfirst") {
+			members = []string{second, first}
+		}
+		root := `{"allOf":[` + members[0] + `,` + members[1] + `]}`
+		entry := rapid.SampledFrom([]string{"request", "request-multi"}).Draw(t, "entry")
+		return Case{Schemas: map[string]string{"Root": root}, Value: jv.Canon(map[string]any{"name": markPrefix + "1secretvalue"}), Entry: entry}
+	}
 	depth := 2
 	if h.Thorough() {
 		depth = rapid.IntRange(2, 4).Draw(t, "depth")
